@@ -10,7 +10,7 @@ def sub_rng(seed, tag):
     return random.Random('%d/%s' % (seed, tag))
 
 
-def diff_runs(env, cases, fuel=200000, seed=0, timeout_ms=5000, need_oracle=True, keep=60):
+def diff_runs(env, cases, fuel=200000, seed=0, timeout_ms=5000, need_oracle=True, keep=60, confirm=True):
     """cases: list of dicts {id, src, stdin?, kind?}.  Runs implementation and model on each,
     returns (mismatches, impl results, model results)."""
     gcs, mls = [], []
@@ -39,7 +39,37 @@ def diff_runs(env, cases, fuel=200000, seed=0, timeout_ms=5000, need_oracle=True
                                  'impl_stdout': r['stdout'].decode('utf-8', 'replace')[-400:],
                                  'impl_stderr': r['stderr'].decode('utf-8', 'replace')[-400:], 'model': mf})
                 break
+    # confirm before reporting: a difference that does not show again when the same case is run twice more is an accident
+    # of the run (a loaded machine cutting a pipe), not a behaviour of the implementation; one that shows again in either
+    # re-run stands (a non-deterministic defect shows with high probability)
+    if mism and confirm:
+        ids = [m['case']['id'] for m in mism if m.get('case')]
+        byid = {c['id']: c for c in cases}
+        gcs2 = []
+        for i in ids:
+            c = byid[i]
+            if c.get('mode') == 'repl':
+                g, _m = core.repl_case(c['id'], c['src'])
+            else:
+                g, _m = core.file_case(c['id'], c['src'], c.get('stdin', ''), timeout_ms=c.get('timeout_ms', 0), repeat=2)
+            if c.get('mode') == 'repl':
+                g['repeat'] = 2
+            gcs2.append(g)
+        again = env.run_impl(gcs2, timeout_ms=timeout_ms)
+        kept = []
+        for m in mism:
+            c = m.get('case')
+            if not c or c['id'] not in again or rm.get(c['id']) is None:
+                kept.append(m); continue
+            if any(core.compare_run(rm[c['id']], r, mask_clock=lang_clock in (c['src'] if isinstance(c['src'], str) else '')) for r in again[c['id']]):
+                kept.append(m)
+            else:
+                UNCONFIRMED.append(c['id'])
+        mism = kept
     return mism, ri, rm
+
+
+UNCONFIRMED = []
 
 
 def replay_generic(env, mm):
